@@ -316,7 +316,7 @@ def run(run):
         except Exception:  # noqa
             continue
         prev = np.array(obj._scrn, copy=True)
-        for step in range(6):
+        for step in range(6 if (variant, req) != ("vk", 4) and (variant, req) != ("fried", 3) else 1300):      # two of them: more than a thousand steps
             obj.add_row()
             cur = np.array(obj._scrn, copy=True)
             n_hist += 1
@@ -352,6 +352,39 @@ def run(run):
         if rA > 1e-5 * innov or rB > 1e-5 * innov:
             run.violation("vk:%s-identity:more-than-a-million-separations" % ("A" if rA > 1e-5 * innov else "B"),
                           dict(nx=nbig, n_columns=ncol, res_A_over_innovation=float(rA / innov), res_B_over_innovation=float(rB / innov)), dict(kind="large", n=nbig, ncol=ncol, prm=list(prm)))
+    # ---- sizes at which a count the set-up works on (nx, n_columns nx, (n_columns + 1) nx) is one more than a multiple of 64 / 128 / 256 /
+    #      512 (where a loop over blocks forgets its remainder), quick: the "+1" sizes, thorough: also exact multiples and "-1"
+    n_blk = 0
+    for ncol in (1, 2, 3):
+        for nxb in range(2, 201):
+            hits = [(B_, d_) for t_ in (nxb, ncol * nxb, (ncol + 1) * nxb) for B_ in (64, 128, 256, 512) for d_ in (-1, 0, 1) if t_ >= B_ - 1 and (t_ - d_) % B_ == 0]
+            if not hits or (quick and not any(d_ == 1 for _, d_ in hits)):
+                continue
+            prm = (0.25, 0.2, 30.0)
+            try:
+                ob = ips.PhaseScreenVonKarman(nxb, prm[0], prm[1], prm[2], random_seed=4, n_columns=ncol)
+            except Exception as ex:  # noqa
+                run.unrunnable.append(dict(block_boundary=[nxb, ncol], error=repr(ex)[:80]))
+                continue
+            pts = np.vstack([np.asarray(ob.stencil_coords, float), np.asarray(ob.X_coords, float)]) * prm[0]
+            C = cov_vk(np.sqrt(((pts[:, None, :] - pts[None, :, :]) ** 2).sum(-1)), prm[1], prm[2])
+            nz = len(ob.stencil_coords)
+            A, Bm = np.asarray(ob.A_mat, float), np.asarray(ob.B_mat, float)
+            Czz, Cxx, Cxz = C[:nz, :nz], C[nz:, nz:], C[nz:, :nz]
+            innov = np.abs(Cxx - Cxz.dot(np.linalg.solve(Czz, Cxz.T))).max()
+            rA, rB = np.abs(A.dot(Czz) - Cxz).max(), np.abs(A.dot(Czz).dot(A.T) + Bm.dot(Bm.T) - Cxx).max()
+            n_blk += 1
+            if rA > 1e-4 * innov or rB > 1e-4 * innov:
+                run.violation("vk:%s-identity:size-at-a-block-boundary" % ("A" if rA > 1e-4 * innov else "B"),
+                              dict(nx=nxb, n_columns=ncol, res_A_over_innovation=float(rA / innov), res_B_over_innovation=float(rB / innov)), dict(kind="large", n=nxb, ncol=ncol, prm=list(prm)))
+                break
+    run.traces += n_blk
+    run.aux["block_boundary_sizes"] = n_blk
+    # ---- "new row = A Z + B b with b INDEPENDENT of the phase already there": the first innovation is not made of the deviates the
+    #      initial screen was built from
+    from harness.checks import c06 as _c06
+    for key, detail in _c06.initial_screen_and_rows_use_different_deviates(core.import_aotools()):
+        run.violation("vk:innovation-not-independent-of-existing-phase:" + key.split(":", 1)[1], detail, dict(kind="reuse"))
     # ---- the set-up protocol (spec/ObjProtocol.tla): whatever order the public set-up methods and parameter assignments come in, every
     #      matrix is the one of the parameter version the model says it was computed from (so the law the rows follow is known)
     from harness import protocol
